@@ -2,6 +2,8 @@ package exec
 
 import (
 	"fmt"
+	"sort"
+	"sync"
 	"go/constant"
 	"go/token"
 	"go/types"
@@ -28,6 +30,8 @@ type event struct {
 }
 
 type Violation struct {
+	Harness string
+	Tags   map[string]int64
 	Stream []StreamRec
 	ID     string
 	Kind   string // "assert" | "panic"
@@ -39,7 +43,7 @@ type Violation struct {
 }
 
 type Stats struct {
-	Paths, Instrs, Branches, Forks, Infeasible, UnwindHits int
+	Paths, Instrs, Branches, Forks, Infeasible, UnwindHits, DepthHits int
 }
 
 type pathEnd struct{ reason string }
@@ -60,7 +64,38 @@ type bufRec struct {
 	lit []*sym.Term
 }
 
+// Shared is the per-harness state shared by all workers exploring that harness.
+type Shared struct {
+	Mu         sync.Mutex
+	Violations []Violation
+	Reached    map[string]int
+	SeenViol   map[string]bool
+	Funcs      map[string]bool
+	Asserts    map[string]int // assertion id -> times discharged (unsat or folded true)
+	Inconcl    map[string]int // assertion id / site -> inconclusive solver answers
+	Samples    []Sample
+	Stats      Stats
+	Bounds     map[string][2]int64 // split tag -> min,max value explored
+}
+
+type Sample struct {
+	Reach  string
+	Stream []StreamRec
+}
+
+func NewShared() *Shared {
+	return &Shared{Reached: map[string]int{}, SeenViol: map[string]bool{}, Funcs: map[string]bool{}, Asserts: map[string]int{}, Inconcl: map[string]int{}, Bounds: map[string][2]int64{}}
+}
+
 type Machine struct {
+	Sh   *Shared
+	Name string
+	Tier int
+	tags map[string]int64
+	funcs map[string]bool
+	Concrete []StreamRec // concrete mode: nondets are read from this stream
+	cpos     int
+	Log      []string // concrete-mode event log (asserts, reach, panic)
 	C    *sym.Ctx
 	S    *sym.Solver
 	Prog *ssa.Program
@@ -94,6 +129,7 @@ type Machine struct {
 	ufs        map[string][]ufEntry
 	Harness    *ssa.Package
 	SplitBounds bool
+	heldK map[string]bool
 }
 
 type ufEntry struct {
@@ -110,23 +146,31 @@ type frame struct {
 }
 
 func NewMachine(c *sym.Ctx, s *sym.Solver, prog *ssa.Program) *Machine {
-	return &Machine{C: c, S: s, Prog: prog, MaxDepth: 200, Unwind: 300, Reached: map[string]int{}, seenViol: map[string]bool{}, OwnPkgs: map[*ssa.Package]bool{}}
+	return &Machine{C: c, S: s, Prog: prog, MaxDepth: 200, Unwind: 300, Reached: map[string]int{}, seenViol: map[string]bool{}, OwnPkgs: map[*ssa.Package]bool{}, Sh: NewShared(), funcs: map[string]bool{}}
 }
 
-// Explore runs fn on every feasible path (fork by re-execution with a decision prefix).
-func (m *Machine) Explore(fn *ssa.Function, maxPaths int) {
-	m.work = [][]int{nil}
-	for len(m.work) > 0 && m.Stats.Paths < maxPaths {
-		p := m.work[len(m.work)-1]
-		m.work = m.work[:len(m.work)-1]
-		m.runPath(fn, p)
-		if m.Stats.Paths%200 == 0 {
-			fmt.Printf("  .. paths=%d pending=%d instrs=%d queries=%d solver=%v\n", m.Stats.Paths, len(m.work), m.Stats.Instrs, m.S.Queries, m.S.Time)
-		}
+// RunPath executes fn once along the path selected by the decision prefix and returns the
+// alternative prefixes discovered (fork by re-execution).
+func (m *Machine) RunPath(fn *ssa.Function, prefix []int) (alts [][]int) {
+	m.work = nil
+	m.runPath(fn, prefix)
+	alts = m.work
+	m.work = nil
+	m.Sh.Mu.Lock()
+	m.Sh.Stats.Paths++
+	m.Sh.Stats.Instrs += m.Stats.Instrs
+	m.Sh.Stats.Branches += m.Stats.Branches
+	m.Sh.Stats.Forks += m.Stats.Forks
+	m.Sh.Stats.Infeasible += m.Stats.Infeasible
+	m.Sh.Stats.UnwindHits += m.Stats.UnwindHits
+	m.Sh.Stats.DepthHits += m.Stats.DepthHits
+	for f := range m.funcs {
+		m.Sh.Funcs[f] = true
 	}
-	if len(m.work) > 0 {
-		fmt.Printf("  !! path budget exhausted, %d prefixes pending\n", len(m.work))
-	}
+	m.Sh.Mu.Unlock()
+	m.Stats = Stats{}
+	m.funcs = map[string]bool{}
+	return alts
 }
 
 func (m *Machine) runPath(fn *ssa.Function, prefix []int) {
@@ -145,16 +189,26 @@ func (m *Machine) runPath(fn *ssa.Function, prefix []int) {
 	m.depth = 0
 	m.curPanic = nil
 	m.stack = nil
+	m.tags = map[string]int64{}
+	m.cpos = 0
+	m.Log = nil
+	m.heldK = map[string]bool{}
 	m.Stats.Paths++
 	defer func() {
 		if r := recover(); r != nil {
 			switch x := r.(type) {
 			case *pathEnd:
-				if x.reason == "unwind" {
+				switch x.reason {
+				case "unwind":
 					m.Stats.UnwindHits++
+				case "depth":
+					m.Stats.DepthHits++
+				}
+				if m.Concrete != nil {
+					m.Log = append(m.Log, "end:"+x.reason)
 				}
 				if m.Trace {
-					fmt.Println("  path end:", x.reason, len(m.taken), "queries", m.S.Queries, "solver", m.S.Time, "slow", m.S.Slow, m.S.SlowTime)
+					fmt.Println("  path end:", x.reason, len(m.taken), "queries", m.S.Queries, "solver", m.S.Time)
 				}
 			case *goPanicSig:
 				m.reportPanic(x)
@@ -164,22 +218,64 @@ func (m *Machine) runPath(fn *ssa.Function, prefix []int) {
 		}
 	}()
 	m.call(fn, nil, nil)
-	if m.Trace {
-		fmt.Println("  path done: decisions", len(m.taken), "queries", m.S.Queries, "solver", m.S.Time, "slow", m.S.Slow, m.S.SlowTime, "instrs", m.Stats.Instrs)
+}
+
+func tagString(t map[string]int64) string {
+	var ks []string
+	for k := range t {
+		ks = append(ks, k)
 	}
+	sort.Strings(ks)
+	var sb strings.Builder
+	for _, k := range ks {
+		fmt.Fprintf(&sb, "%s=%d;", k, t[k])
+	}
+	return sb.String()
+}
+
+func (m *Machine) copyTags() map[string]int64 {
+	r := map[string]int64{}
+	for k, v := range m.tags {
+		r[k] = v
+	}
+	return r
+}
+
+// firstSeen registers a violation key in the shared table and reports whether it is new.
+func (m *Machine) firstSeen(key string) bool {
+	m.Sh.Mu.Lock()
+	defer m.Sh.Mu.Unlock()
+	if m.Sh.SeenViol[key] {
+		return false
+	}
+	m.Sh.SeenViol[key] = true
+	return true
 }
 
 func (m *Machine) reportPanic(x *goPanicSig) {
-	key := "panic:" + x.where + ":" + x.msg
-	if m.seenViol[key] {
+	if m.Concrete != nil {
+		m.Log = append(m.Log, "panic")
 		return
 	}
-	m.seenViol[key] = true
-	res, model, bufs := m.modelNow(nil)
-	if res != sym.Sat {
+	id := "panic:" + x.where + ":" + x.msg
+	key := id + "|" + tagString(m.tags)
+	if !m.firstSeen(key) {
 		return
 	}
-	m.Violations = append(m.Violations, Violation{ID: key, Kind: "panic", Msg: x.msg, Where: x.where, Model: model, Bytes: bufs, Path: append([]int(nil), m.taken...), Stream: m.streamNow(nil)})
+	st := m.streamNow(nil)
+	if st == nil {
+		m.noteInconclusive(id)
+		return
+	}
+	m.Sh.Mu.Lock()
+	m.Sh.Violations = append(m.Sh.Violations, Violation{Harness: m.Name, ID: id, Kind: "panic", Msg: x.msg, Where: x.where, Tags: m.copyTags(), Path: append([]int(nil), m.taken...), Stream: st})
+	m.Sh.Mu.Unlock()
+}
+
+func (m *Machine) noteInconclusive(id string) {
+	m.Sh.Mu.Lock()
+	m.Sh.Inconcl[id]++
+	m.Sh.Mu.Unlock()
 }
 
 // modelNow solves pc ∧ extra and returns values of all nondets and buffers.
@@ -256,7 +352,7 @@ func (m *Machine) sat(extra *sym.Term) bool {
 	}
 	r, _ := m.S.CheckPC(m.pc, extra, nil)
 	if r == sym.Unknown {
-		fmt.Println("  !! solver unknown; treating as feasible")
+		m.noteInconclusive("branch-feasibility")
 		return true
 	}
 	return r == sym.Sat
@@ -338,6 +434,9 @@ func (m *Machine) call(fn *ssa.Function, args []Value, bind []Value) Value {
 		panic(&pathEnd{"depth"})
 	}
 	m.stack = append(m.stack, fn.String())
+	if fn.Pkg != nil && m.OwnPkgs[fn.Pkg] && !strings.HasPrefix(fn.Name(), "verif") && !strings.HasPrefix(fn.Name(), "Verif") {
+		m.funcs[fn.String()] = true
+	}
 	defer func() { m.depth--; m.stack = m.stack[:len(m.stack)-1] }()
 	fr := &frame{fn: fn, locals: map[ssa.Value]Value{}, loops: map[*ssa.BasicBlock]int{}}
 	for i, p := range fn.Params {
@@ -732,4 +831,12 @@ func (m *Machine) streamNow(extra *sym.Term) []StreamRec {
 		}
 	}
 	return out
+}
+
+// Where names the innermost function being executed (for engine error messages).
+func (m *Machine) Where() string {
+	if len(m.stack) == 0 {
+		return "?"
+	}
+	return m.stack[len(m.stack)-1]
 }
